@@ -46,6 +46,33 @@ def tag_eq_closure(body, clo, param):
     return has_param and has_tag
 
 
+def tag_eq_term(r, param):
+    if not (isinstance(r, tuple) and r[0] == "bin" and r[1] == "Eq"):
+        return False
+    sides = [r[2], r[3]]
+    return any(s == ("var", param) for s in sides) and any((is_call(s, "ipp::attribute::IppAttributeGroup::tag") or (s[0] == "field" and s[2] == "tag")) for s in sides)
+
+
+def tag_select_closure(body, clo, param):
+    """closure |g| (g.tag == <param>).then_some(g)  /  if g.tag == param { Some(g) } else { None }: filter_map that is a filter."""
+    if clo[0] != "closure":
+        return False
+    g = ("var", "$element")
+    cps = closure_paths(body, clo, [g])
+    if len(cps) != 2:
+        return False
+    seen = set()
+    for p in cps:
+        cs = [c for c in p.conds if c[0] in ("if", "guard")]
+        if len(cs) != 1 or len(p.conds) != 1 or not tag_eq_term(cs[0][1], param):
+            return False
+        if cs[0][2] is True and p.ret == ("ctor", "std::prelude::v1::Some", [g]):
+            seen.add(True)
+        elif cs[0][2] is False and p.ret[0] == "ctor" and p.ret[1].endswith("::None"):
+            seen.add(False)
+    return seen == {True, False}
+
+
 def check_add(run, F, prefix="R-CONTAINER"):
     b = F.body(ADD)
     if b is None:
@@ -90,12 +117,14 @@ def check_add(run, F, prefix="R-CONTAINER"):
         if len(ins) == 1:
             t = ins[0]
             key, val = display_norm(t[2][1]), t[2][2]
-            okk = is_call(key, "ipp::attribute::IppAttribute::name") and key[2][0] == ("var", attr_p)
+            okk = (is_call(key, "ipp::attribute::IppAttribute::name") and key[2][0] == ("var", attr_p)) or key == ("field", ("var", attr_p), "name")   # name() returns the field
             run.ob(prefix, "add: keyed by the attribute's own name", okk and val == ("var", attr_p), "insert(%s, %s)" % (tshow(t[2][1])[:80], tshow(val)[:40]), site(b, t[3]),
                    key="%s|%s|key" % (prefix, ADD))
             recv = t[2][0]
             if hit:
                 tgt = recv[2][0] if is_call(recv, "ipp::attribute::IppAttributeGroup::attributes_mut") else None
+                if tgt is None and isinstance(recv, tuple) and recv[0] == "field" and recv[2] == "attributes":
+                    tgt = recv[1]           # `group.attributes` is what attributes_mut() hands out
                 okr = tgt is not None and ((tgt[0] == "proj" and is_call(tgt[1], "std::iter::Iterator::find")) or
                                            (tgt[0] == "index" and groups_list(tgt[1]) and tgt[2][0] == "proj" and is_call(tgt[2][1], "std::iter::Iterator::position")))
                 run.ob(prefix, "add(hit): inserted into the found group", okr, "target %s" % tshow(recv)[:120], site(b, t[3]), key="%s|%s|hit-target" % (prefix, ADD))
@@ -110,6 +139,13 @@ def check_add(run, F, prefix="R-CONTAINER"):
                     if len(pushed) == 1 and calls.index(pushed[0]) < calls.index(t):
                         newg = pushed[0][2][1]
                 okn = is_call(newg, "ipp::attribute::IppAttributeGroup::new") and newg[2][0] == ("var", tag_p)
+                if not okn and newg is None and is_call(recv) and recv[1].endswith("HashMap::<K, V>::new") and not recv[2]:
+                    # the new group written as a struct literal around a fresh map: `let mut m = HashMap::new(); m.insert(..); push(IppAttributeGroup { tag, attributes: m })`
+                    lit_ = [c for c in calls if c[1] == "std::vec::Vec::<T, A>::push" and groups_list(c[2][0]) and isinstance(c[2][1], tuple) and c[2][1][0] == "ctor" and
+                            c[2][1][1] == "ipp::attribute::IppAttributeGroup" and isinstance(c[2][1][2], dict)]
+                    if len(lit_) == 1 and lit_[0][2][1][2].get("tag") == ("var", tag_p) and lit_[0][2][1][2].get("attributes") is recv and set(lit_[0][2][1][2]) == {"tag", "attributes"} and \
+                            calls.index(t) < calls.index(lit_[0]):
+                        okn, newg = True, lit_[0][2][1]
                 run.ob(prefix, "add(miss): new group of the requested kind", okn, "target %s" % tshow(recv)[:120], site(b, t[3]), key="%s|%s|miss-group" % (prefix, ADD))
                 pushes = [c for c in calls if c[1] == "std::vec::Vec::<T, A>::push"]
                 okp = len(pushes) == 1 and groups_list(pushes[0][2][0]) and (pushes[0][2][1] is newg or same(pushes[0][2][1], newg))
@@ -192,6 +228,8 @@ def check(run, views, tier):
                 r = p.ret
                 ok = is_call(r, "std::iter::Iterator::filter") and is_call(r[2][0], "core::slice::<impl [T]>::iter") and groups_list(r[2][0][2][0]) and \
                     tag_eq_closure(b, r[2][1], b["params"][1].get("name"))
+                if not ok and is_call(r, "std::iter::Iterator::filter_map") and is_call(r[2][0], "core::slice::<impl [T]>::iter") and groups_list(r[2][0][2][0]):
+                    ok = tag_select_closure(b, r[2][1], b["params"][1].get("name"))      # filter_map(|g| (g.tag == tag).then_some(g)) is that filter
                 run.ob("R-CONTAINER", "groups_of = groups.iter().filter(tag ==)", ok, tshow(r)[:200], site(b), key="R-CONTAINER|%s|shape" % GROUPS_OF)
         # group constructor
         gb = F.body("ipp::attribute::IppAttributeGroup::new")
